@@ -106,7 +106,7 @@ static void check_query(long caseno) {
     int np = (int)rng_below(&R, 13);
     /* '=' only: the URL encoder leaves ':' literal, so ':' as name/value separator is outside what URL-encoding protects */
     static const char SEPS[] = "&;";
-    char sep = SEPS[rng_below(&R, 2)], eq = '=';
+    char sep = SEPS[rng_below(&R, 2)], eq = "==|,\t"[rng_below(&R, 5)];      /* the caller's equal character: any byte the encoder always escapes ('=' '|' ',' TAB; not ':' which it leaves literal) */
     char names[12][40], vals[12][40]; size_t cap = 16; char *q = hm_alloc(cap); size_t ql = 0; q[0] = 0;
     for (int i = 0; i < np; i++) {
         size_t nl = rng_below(&R, 4) == 0 ? 0 : rng_below(&R, 12), vl = rng_below(&R, 4) == 0 ? 0 : rng_below(&R, 12);
